@@ -56,6 +56,10 @@ func setPropsFromMapRecursive(val reflect.Value, updates map[string]any) (staged
 			}
 
 			found = true
+			// null is not a value of any setting or section (decoding it would yield the zero value).
+			if value == nil {
+				return stagedProps, fmt.Errorf("null is not a valid value for '%s'", key)
+			}
 			if fieldVal.Kind() == reflect.Struct {
 				// Check if it's a ConfigProp. This comes first: a property is a struct too,
 				// and an (ill-typed) object given as its value is not a nested update.
@@ -86,6 +90,8 @@ func setPropsFromMapRecursive(val reflect.Value, updates map[string]any) (staged
 					}
 					break
 				}
+				// A section takes an object and nothing else.
+				return stagedProps, fmt.Errorf("'%s' is a section and takes an object", key)
 			}
 			break
 		}
